@@ -226,7 +226,7 @@ impl Prop for C18 {
         true
     }
     fn random_cases(tier: Tier) -> u64 {
-        if tier == Tier::Quick { 30_000 } else { 1_000_000 }
+        if tier == Tier::Quick { 200_000 } else { 3_000_000 }
     }
     fn execute(k: &Trip, ctx: &mut Ctx) -> Verdict {
         exec_trip(k, ctx)
@@ -625,7 +625,7 @@ impl Prop for C19 {
         doc_strategy()
     }
     fn random_cases(tier: Tier) -> u64 {
-        if tier == Tier::Quick { 60_000 } else { 2_000_000 }
+        if tier == Tier::Quick { 400_000 } else { 6_000_000 }
     }
     fn execute(k: &Doc, ctx: &mut Ctx) -> Verdict {
         exec_doc(k, ctx)
